@@ -14,6 +14,7 @@ import (
 type ChanV struct {
 	ID     int
 	Closed bool
+	ClosedT *Term // non-nil: closed-ness is symbolic and not yet examined on this path
 	Buf    []Value
 	Cap    int
 	Note   string
@@ -85,6 +86,9 @@ type Exec struct {
 	lastNow             *Term
 	guards              []guardEntry
 	ufMemo              map[string][]*Term
+	goInline            []string
+	decided             map[string]bool
+	prefixLen           int
 	epoch               int
 	pending             *abortSig
 	preempt, maxPreempt int
@@ -164,6 +168,9 @@ func (x *Exec) branch(c *Term) bool {
 	if c.IsConc() {
 		return c.C.(bool)
 	}
+	if v, ok := x.decided[c.E]; ok {
+		return v // this very condition was already decided on this path
+	}
 	x.Branches++
 	k := x.choose('b', 2, func(i int) bool {
 		if i == 1 {
@@ -173,9 +180,11 @@ func (x *Exec) branch(c *Term) bool {
 	})
 	if k == 0 {
 		x.sol.Assert(c)
+		x.decided[c.E] = true
 		return true
 	}
 	x.sol.Assert(tNot(c))
+	x.decided[c.E] = false
 	return false
 }
 
@@ -473,13 +482,19 @@ func (x *Exec) runBlock(fr *Frame) {
 // `a && b`, `a || b`, `if a && b { x += c }`, min/max and nil-guard patterns, including nesting.
 func pureInstr(in ssa.Instruction) bool {
 	switch in := in.(type) {
-	case *ssa.BinOp, *ssa.Field, *ssa.Extract, *ssa.ChangeType, *ssa.FieldAddr, *ssa.DebugRef, *ssa.Convert, *ssa.Index, *ssa.IndexAddr:
+	case *ssa.BinOp, *ssa.Field, *ssa.Extract, *ssa.ChangeType, *ssa.FieldAddr, *ssa.DebugRef, *ssa.Convert, *ssa.Index, *ssa.IndexAddr, *ssa.MakeInterface, *ssa.ChangeInterface, *ssa.Slice:
 		return true
 	case *ssa.UnOp:
 		return in.Op != token.ARROW
 	case *ssa.Call:
 		if bi, ok := in.Call.Value.(*ssa.Builtin); ok && (bi.Name() == "len" || bi.Name() == "cap") {
 			return true
+		}
+		if f := in.Call.StaticCallee(); f != nil {
+			switch f.Name() {
+			case "vIsClosed", "vChanLen", "vSame", "vTimeNs", "vMapHas", "vIsSymbolic":
+				return true // side-effect-free harness intrinsics
+			}
 		}
 	}
 	return false
@@ -954,7 +969,15 @@ func (x *Exec) step(fr *Frame, in ssa.Instruction) {
 			name = f.String()
 		}
 		fn, args := x.prepCall(fr, c)
-		if x.sched {
+		inline := false
+		for _, s := range x.goInline {
+			if strings.Contains(name, s) {
+				inline = true
+			}
+		}
+		if inline {
+			fn(args)
+		} else if x.sched {
 			x.spawn(func() { fn(args) })
 		} else {
 			x.spawnedNames = append(x.spawnedNames, name)
@@ -967,7 +990,7 @@ func (x *Exec) step(fr *Frame, in ssa.Instruction) {
 		if ch == nil {
 			x.abort("BLOCKED", "send on nil channel")
 		}
-		if ch.Closed {
+		if x.chClosed(ch) {
 			x.abort("PANIC", "send on closed channel")
 		}
 		for len(ch.Buf) >= ch.Cap {
@@ -1094,8 +1117,23 @@ func (x *Exec) doNext(fr *Frame, in *ssa.Next) {
 		return
 	}
 	it := x.get(fr, in.Iter).(*MapIter)
-	for it.Pos < len(it.Snap) && !x.mapHas(it.M, it.Snap[it.Pos]) {
-		it.Pos++
+	for it.Pos < len(it.Snap) {
+		e := it.Snap[it.Pos]
+		if !x.mapHas(it.M, e) {
+			it.Pos++
+			continue
+		}
+		if e.Present != nil {
+			p := e.Present
+			if x.branch(p) {
+				e.Present = nil
+			} else {
+				x.mapRemove(it.M, e) // absent on this path
+				it.Pos++
+				continue
+			}
+		}
+		break
 	}
 	mt := in.Iter.(*ssa.Range).X.Type().Underlying().(*types.Map)
 	if it.Pos >= len(it.Snap) {
@@ -1107,7 +1145,17 @@ func (x *Exec) doNext(fr *Frame, in *ssa.Next) {
 	}
 }
 
-func (x *Exec) chanReadyRecv(ch *ChanV) bool { return ch != nil && (ch.Closed || len(ch.Buf) > 0) }
+// chClosed resolves (and from then on fixes) the closed flag of ch on this path.
+func (x *Exec) chClosed(ch *ChanV) bool {
+	if ch.ClosedT != nil {
+		t := ch.ClosedT
+		ch.ClosedT = nil
+		ch.Closed = x.branch(t)
+	}
+	return ch.Closed
+}
+
+func (x *Exec) chanReadyRecv(ch *ChanV) bool { return ch != nil && (len(ch.Buf) > 0 || x.chClosed(ch)) }
 
 func (x *Exec) doSelect(fr *Frame, in *ssa.Select) {
 	ready := func() []int {
@@ -1120,7 +1168,7 @@ func (x *Exec) doSelect(fr *Frame, in *ssa.Select) {
 			if st.Dir == types.RecvOnly && x.chanReadyRecv(ch) {
 				r = append(r, i)
 			}
-			if st.Dir == types.SendOnly && (ch.Closed || len(ch.Buf) < ch.Cap) {
+			if st.Dir == types.SendOnly && (len(ch.Buf) < ch.Cap || x.chClosed(ch)) {
 				r = append(r, i)
 			}
 		}
@@ -1216,6 +1264,15 @@ func (x *Exec) concIndex(v Value, n int, what string) int {
 	return k
 }
 
+func (x *Exec) mapRemove(m *MapV, e *MapEntry) {
+	for i, f := range m.Entries {
+		if f == e {
+			m.Entries = append(append([]*MapEntry{}, m.Entries[:i]...), m.Entries[i+1:]...)
+			return
+		}
+	}
+}
+
 func (x *Exec) mapHas(m *MapV, e *MapEntry) bool {
 	for _, f := range m.Entries {
 		if f == e {
@@ -1234,7 +1291,12 @@ func (x *Exec) mapFind(m *MapV, k Value) *MapEntry {
 		x.checkGuardObj(m)
 	}
 	for _, e := range m.Entries {
-		if x.branch(x.eqVal(e.K, k)) {
+		c := x.eqVal(e.K, k)
+		if e.Present != nil {
+			c = tAnd(e.Present, c)
+		}
+		if x.branch(c) {
+			e.Present = nil // present on this path
 			return e
 		}
 	}
@@ -1413,7 +1475,7 @@ func (x *Exec) recv(ch *ChanV, zero Value, commaOk bool) Value {
 	if ch == nil {
 		x.abort("BLOCKED", "receive on nil channel")
 	}
-	for len(ch.Buf) == 0 && !ch.Closed {
+	for len(ch.Buf) == 0 && !x.chClosed(ch) {
 		if !x.sched {
 			x.abort("BLOCKED", "receive on open empty channel "+ch.Note)
 		}
@@ -1542,7 +1604,15 @@ func (x *Exec) builtin(b *ssa.Builtin, args []Value, c *ssa.CallCommon) Value {
 			if v == nil {
 				return mkInt(0)
 			}
-			return mkInt(int64(len(v.Entries)))
+			n := mkInt(0)
+			for _, e := range v.Entries {
+				if e.Present == nil {
+					n = tAdd(n, mkInt(1))
+				} else {
+					n = tAdd(n, tIte(e.Present, mkInt(1), mkInt(0)))
+				}
+			}
+			return n
 		case *Term:
 			return mkInt(int64(len(v.C.(string))))
 		case *StrV:
@@ -1632,7 +1702,7 @@ func (x *Exec) builtin(b *ssa.Builtin, args []Value, c *ssa.CallCommon) Value {
 		return nil
 	case "close":
 		ch := args[0].(*ChanV)
-		if ch == nil || ch.Closed {
+		if ch == nil || x.chClosed(ch) {
 			x.abort("PANIC", "close of nil or closed channel")
 		}
 		ch.Closed = true
